@@ -893,18 +893,20 @@ Proof.
   unfold auto_bind. destruct (if is_loop dst then _ else _); [|auto].
   pose proof (OwnInv_allocate_port k ow (v6 dst) st H) as H1.
   assert (socks (fst (allocate_port k (v6 dst) st)) = socks k) as S1 by (unfold allocate_port; destruct (alloc_loop _ _ _ _); reflexivity).
-  destruct (allocate_port k (v6 dst) st) as [k1 [port|]]; cbn [fst] in *; [|rewrite S1; auto].
+  destruct (allocate_port k (v6 dst) st) as [k1 [port|]]; cbn [fst] in *;
+    [|split; [exact H1|split; [unfold keys; rewrite S1; reflexivity|rewrite S1; exact ID]]].
   assert (keys k1 = keys k) as K1 by (unfold keys; rewrite S1; reflexivity).
   split; [|split].
   - apply OwnInv_bind; [rewrite K1; exact Hfd|rewrite S1; exact NL|intros s; repeat split|exact H1].
   - rewrite keys_upd_sock, keys_insert_binding. exact K1.
-  - intros f s' Hin. cbn in Hin. rewrite S1 in Hin. apply in_upd_s' in Hin as (s & Hs & [[_ ->]|[_ ->]]); exists s; auto.
+  - intros f s' Hin. cbn [socks upd_sock set_socks insert_binding] in Hin. rewrite S1 in Hin.
+    apply in_upd_s' in Hin as (s & Hs & [[_ ->]|[_ ->]]); exists s; auto.
 Qed.
 
 Lemma OwnInv_k_bind k ow a st :
   OwnInv k ow ->
   match k_bind k a st with
-  | (k', Ready fd) => OwnInv k' (ow ++ [fd]) /\ next_id k' = fd + 1 /\ ready_of k' = ready_of k /\
+  | (k', Ready fd) => OwnInv k' (ow ++ [fd]) /\ fd = next_id k /\ ready_of k' = ready_of k /\
                       (forall s, In (fd, s) (socks k') -> s_tcb s = None /\ s_stream s = st /\ fd_closed s = false /\ is_listener s = false /\
                                  (forall key fds, In (key, fds) (binds k') -> In fd fds -> s_bound s = Some key))
   | (k', _) => OwnInv k' ow
@@ -912,8 +914,9 @@ Lemma OwnInv_k_bind k ow a st :
 Proof.
   intros H. unfold k_bind. destruct (_ && _); [exact H|].
   assert (OwnInv (fst (if snd a =? 0 then allocate_port k (v6 (fst a)) st else (k, Some (snd a)))) ow /\
-          ready_of (fst (if snd a =? 0 then allocate_port k (v6 (fst a)) st else (k, Some (snd a)))) = ready_of k) as [H1 R1].
-  { destruct (snd a =? 0); [|auto]. split; [apply OwnInv_allocate_port, H|]. unfold allocate_port. destruct (alloc_loop _ _ _ _). reflexivity. }
+          ready_of (fst (if snd a =? 0 then allocate_port k (v6 (fst a)) st else (k, Some (snd a)))) = ready_of k /\
+          next_id (fst (if snd a =? 0 then allocate_port k (v6 (fst a)) st else (k, Some (snd a)))) = next_id k) as (H1 & R1 & N1).
+  { destruct (snd a =? 0); [|auto]. split; [apply OwnInv_allocate_port, H|]. unfold allocate_port. destruct (alloc_loop _ _ _ _). split; reflexivity. }
   destruct (if snd a =? 0 then _ else _) as [k1 [port|]]; cbn [fst] in *; [|exact H1].
   destruct (existsb _ _); [exact H1|].
   pose proof (OwnInv_insert_owned k1 ow (v6 (fst a)) st H1) as H2.
@@ -926,12 +929,12 @@ Proof.
   { intros s Hin. cbn in Hin. apply in_app_or in Hin as [Hin|[E|[]]]; [|inversion E; reflexivity].
     exfalso. assert (In fd (keys k1)) as X by (unfold keys; apply in_map_iff; exists (fd, s); auto).
     pose proof (ix_fresh _ (o_idx _ _ H1) _ X). subst fd. lia. }
-  split; [|split; [reflexivity|split]].
+  split; [|split; [exact N1|split]].
   - apply OwnInv_bind; [exact Hk| |intros s; repeat split|exact H2].
     intros s Hin. rewrite (NEW _ Hin). split; reflexivity.
   - rewrite ready_of_upd_same by reflexivity. change (ready_of (insert_binding K key fd)) with (ready_of K).
     unfold K. rewrite ready_of_app. cbn. rewrite app_nil_r. exact R1.
-  - intros s Hin. cbn in Hin. apply in_upd_s' in Hin as (s0 & Hs0 & D). rewrite (NEW _ Hs0) in D.
+  - intros s Hin. cbn [socks upd_sock set_socks insert_binding] in Hin. apply in_upd_s' in Hin as (s0 & Hs0 & D). rewrite (NEW _ Hs0) in D.
     destruct D as [[X _]|[_ ->]]; [congruence|]. cbn. repeat split.
     intros key' fds' Hk' Hf. cbn [binds upd_sock set_socks insert_binding] in Hk'. apply in_bind_push2 in Hk' as [Hk'|[-> _]]; [|reflexivity].
     exfalso. change (binds K) with (binds k1) in Hk'. destruct (ix_binds _ (o_idx _ _ H1) _ _ Hk') as [_ B]. specialize (B _ Hf).
@@ -960,7 +963,7 @@ Proof.
     assert (tstate_eqb (t_state (if wr_closed t then t else tcb_queue_fin t)) SynReceived = false) as NS'.
     { destruct (wr_closed t); [exact NS|]. unfold tcb_queue_fin. cbn [t_state]. destruct (t_state t); cbn in *; congruence. }
     apply OwnInv_disown_closed.
-    + intros s0 Hin. cbn in Hin. apply in_upd_s' in Hin as (s1 & Hs1 & [[X _]|[_ ->]]); [congruence|]. split; [reflexivity|].
+    + intros s0 Hin. cbn [socks upd_sock set_socks] in Hin. apply in_upd_s' in Hin as (s1 & Hs1 & [[X _]|[_ ->]]); [congruence|]. split; [reflexivity|].
       unfold g, is_listener. cbn. apply (NL' _ Hs1).
     + apply OwnInv_upd_gen; [| | | | | |exact H].
       * intros s0. repeat split.
@@ -1035,4 +1038,360 @@ Proof.
     + eapply OwnInv_k_close_listener; eassumption.
     + eapply OwnInv_k_close_nonlistener; [exact L|unfold is_listener; rewrite LI; reflexivity|exact H].
   - unfold k_close. rewrite L. apply OwnInv_disown_gone; [apply lookup_none_absent, L|exact H].
+Qed.
+
+Lemma OwnInv_k_poll_connect k ow fd peer :
+  (forall s, lookup k fd = Some s -> is_listener s = false) ->
+  OwnInv k ow -> OwnInv (fst (k_poll_connect k fd peer)) ow.
+Proof.
+  intros NLs H. unfold k_poll_connect. destruct (lookup k fd) as [s|] eqn:L; [|exact H].
+  destruct (lookup_some_in _ _ _ L) as [Hs Hfd]. specialize (NLs s eq_refl).
+  pose proof (lookup_not_listener _ _ _ (o_idx _ _ H) L NLs) as NL'.
+  destruct (negb _); [exact H|]. destruct (s_tcb s) as [t|] eqn:T; [destruct (t_state t); exact H|].
+  assert (forall s0, In (fd, s0) (socks k) -> is_listener s0 = false /\ is_synrcvd s0 = false) as NL2.
+  { intros s0 Hin. split; [apply (NL' _ Hin)|]. rewrite (lookup_unique _ _ _ _ (o_idx _ _ H) L Hin). unfold is_synrcvd. rewrite T. reflexivity. }
+  assert (exists K r, (match s_bound s with Some b => (k, Ready b) | None => auto_bind k fd true (fst peer) end) = (K, r) /\
+                      OwnInv K ow /\ keys K = keys k /\
+                      (forall s0, In (fd, s0) (socks K) -> is_listener s0 = false /\ is_synrcvd s0 = false)) as (K & r & E & H1 & K1 & NL3).
+  { destruct (s_bound s).
+    - exists k, (Ready b). auto.
+    - destruct (OwnInv_auto_bind k ow fd true (fst peer) Hfd NL2 H) as (A & B & C).
+      destruct (auto_bind k fd true (fst peer)) as [K r] eqn:EA. cbn [fst] in *. exists K, r.
+      split; [reflexivity|]. split; [exact A|]. split; [exact B|]. intros s0 Hin0. split.
+      + destruct (C _ _ Hin0) as (s1 & Hs1 & E1 & _). unfold is_listener. rewrite E1. apply (NL' _ Hs1).
+      + destruct (C _ _ Hin0) as (s1 & Hs1 & _ & E2 & _). unfold is_synrcvd. rewrite E2.
+        rewrite (lookup_unique _ _ _ _ (o_idx _ _ H) L Hs1). rewrite T. reflexivity. }
+  rewrite E. destruct r as [|b|e]; cbn [fst]; try exact H1.
+  apply OwnInv_emit.
+  set (g := fun s0 : socket => set_peer (set_tcb s0 (Some (fresh_tcb SynSent peer (isn K) default_window 0))) (Some peer)).
+  assert (OwnInv (upd_sock (fst (initial_sequence K)) fd g) ow) as H2.
+  { apply OwnInv_install_tcb; [exact NL3| |apply OwnInv_initial_sequence, H1].
+    intros s0. repeat split. cbn. discriminate. }
+  apply OwnInv_insert_connection; [| | |exact H2].
+  - rewrite keys_upd_sock. change (In fd (keys K)). rewrite K1. exact Hfd.
+  - intros s0 Hin. cbn [socks upd_sock set_socks initial_sequence fst] in Hin. apply in_upd_s' in Hin as (s1 & _ & [[X _]|[_ ->]]); [congruence|]. cbn. discriminate.
+  - intros s0 Hin S. exfalso. cbn [socks upd_sock set_socks initial_sequence fst] in Hin.
+    apply in_upd_s' in Hin as (s1 & _ & [[X _]|[_ ->]]); [congruence|]. discriminate S.
+Qed.
+
+Lemma OwnInv_k_poll_accept k ow fd :
+  OwnInv k ow ->
+  match snd (k_poll_accept k fd) with
+  | Ready (c, _) => OwnInv (fst (k_poll_accept k fd)) (ow ++ [c])
+  | Pending => OwnInv (fst (k_poll_accept k fd)) ow
+  | Err _ => True
+  end.
+Proof.
+  intros H. unfold k_poll_accept. destruct (lookup k fd) as [s|] eqn:L; [|exact I].
+  destruct (s_listen s) as [l|] eqn:LI; [|exact I]. destruct (ready l) as [|c rest] eqn:R; [exact H|].
+  destruct (lookup_some_in _ _ _ L) as [Hs _].
+  pose proof (OwnInv_pop k ow fd s l c rest Hs LI R H) as H1.
+  destruct (lookup _ c) as [cs|]; cbn [fst snd]; [|exact I].
+  destruct (s_tcb cs); cbn [fst snd]; [exact H1|exact I].
+Qed.
+
+Lemma OwnInv_k_poll_send k ow fd buf : OwnInv k ow -> OwnInv (fst (k_poll_send k fd buf)) ow.
+Proof.
+  intros H. unfold k_poll_send. destruct (lookup k fd) as [s|] eqn:L; [|exact H]. destruct (s_tcb s) as [t|] eqn:T; [|exact H].
+  pose proof (syn_send (send_cap (cfg k)) t buf) as S. destruct (tcb_send _ t buf) as [t' r]. cbn [fst] in *.
+  eapply OwnInv_upd_tcb; eassumption.
+Qed.
+Lemma OwnInv_k_poll_shutdown k ow fd : OwnInv k ow -> OwnInv (fst (k_poll_shutdown k fd)) ow.
+Proof.
+  intros H. unfold k_poll_shutdown. destruct (lookup k fd) as [s|] eqn:L; [|exact H]. destruct (s_tcb s) as [t|] eqn:T; [|exact H].
+  pose proof (syn_shutdown t) as S. destruct (tcb_shutdown t) as [t' r]. cbn [fst] in *. eapply OwnInv_upd_tcb; eassumption.
+Qed.
+Lemma OwnInv_k_poll_recv k ow fd n : OwnInv k ow -> OwnInv (fst (k_poll_recv k fd n)) ow.
+Proof.
+  intros H. unfold k_poll_recv. destruct (lookup k fd) as [s|] eqn:L; [|exact H]. destruct (s_tcb s) as [t|] eqn:T; [|exact H].
+  pose proof (syn_recv (recv_cap (cfg k)) t n) as S. destruct (tcb_recv _ t n) as [[t' r] u]. cbn [fst] in *.
+  assert (OwnInv (upd_tcb k fd t') ow) as H1 by (eapply OwnInv_upd_tcb; eassumption).
+  destruct u; [apply OwnInv_emit|]; exact H1.
+Qed.
+
+(* ---- inbound ---- *)
+Lemma find_ext' {A} (f g : A -> bool) l : (forall a, f a = g a) -> find f l = find g l.
+Proof. intros E. induction l as [|x l IH]; cbn; [reflexivity|]. rewrite E, IH. reflexivity. Qed.
+
+Lemma conn_get_in' l key fd : conn_get l key = Some fd -> In (key, fd) l.
+Proof.
+  induction l as [|[c0 f0] l IH]; cbn; [discriminate|].
+  destruct (ck_eqb c0 key) eqn:Q; [apply ck_eqb_eq in Q; subst; intros E; inversion E; auto|auto].
+Qed.
+
+Lemma on_conn_keeps_syn cap t s :
+  snd (tcb_on_conn cap t s) <> OPush ->
+  tstate_eqb (t_state (fst (tcb_on_conn cap t s))) SynReceived = tstate_eqb (t_state t) SynReceived.
+Proof.
+  intros NP. destruct (tstate_eqb (t_state t) SynReceived) eqn:E.
+  - assert (t_state t = SynReceived) as ST by (destruct (t_state t); try discriminate; reflexivity).
+    unfold tcb_on_conn in *. rewrite ST in *. destruct (_ && _); [|cbn; rewrite ST; reflexivity].
+    destruct (negb _); [cbn; rewrite ST; reflexivity|]. cbn in NP. congruence.
+  - destruct (tstate_eqb (t_state (fst (tcb_on_conn cap t s))) SynReceived) eqn:E'; [|reflexivity].
+    apply syn_on_conn in E'. congruence.
+Qed.
+
+Lemma OwnInv_handle_on_connection k ow fd l r s :
+  In ((l, r), fd) (conns k) -> OwnInv k ow -> OwnInv (handle_on_connection k fd l r s) ow.
+Proof.
+  intros Hc H. unfold handle_on_connection. destruct (f_rst s); [apply OwnInv_abort, H|].
+  destruct (lookup k fd) as [so|] eqn:L; [|exact H]. destruct (s_tcb so) as [t|] eqn:T; [|exact H].
+  pose proof (on_conn_keeps_syn (recv_cap (cfg k)) t s) as KS.
+  destruct (tcb_on_conn (recv_cap (cfg k)) t s) as [t' o] eqn:ET. cbn [fst snd] in KS.
+  destruct o.
+  - eapply OwnInv_upd_tcb; [exact L|exact T|apply KS; discriminate|exact H].
+  - apply OwnInv_emit. eapply OwnInv_upd_tcb; [exact L|exact T|apply KS; discriminate|exact H].
+  - apply OwnInv_emit. eapply OwnInv_upd_tcb; [exact L|exact T|apply KS; discriminate|exact H].
+  - (* OPush *)
+    assert (t_state t = SynReceived /\ t_state t' = Established) as [ST ST'].
+    { unfold tcb_on_conn in ET. destruct (t_state t) eqn:Q.
+      - destruct (_ && _); inversion ET.
+      - destruct (_ && _); [|inversion ET]. destruct (negb _); inversion ET. split; reflexivity.
+      - destruct (tcb_on_seg _ _ _) as [x a]; destruct a; inversion ET.
+      - destruct (tcb_on_seg _ _ _) as [x a]; destruct a; inversion ET.
+      - destruct (tcb_on_seg _ _ _) as [x a]; destruct a; inversion ET.
+      - destruct (tcb_on_seg _ _ _) as [x a]; destruct a; inversion ET.
+      - destruct (tcb_on_seg _ _ _) as [x a]; destruct a; inversion ET.
+      - destruct (tcb_on_seg _ _ _) as [x a]; destruct a; inversion ET.
+      - inversion ET. }
+    destruct (lookup_some_in _ _ _ L) as [Hso Hk].
+    assert (is_synrcvd so = true) as Sso by (unfold is_synrcvd; rewrite T, ST; reflexivity).
+    destruct (o_syn _ _ H _ _ Hso Sso) as (NLso & FCso & bs & Bso & HLso).
+    pose proof (o_conn _ _ H _ _ _ _ Hc Hso Sso) as BE.
+    assert (find_listener k l <> None) as FL.
+    { rewrite <- BE. unfold bound_endpoint. rewrite Bso. apply covers_find_listener, HLso. }
+    (* first count fd as held, update its TCB, queue it, then drop the temporary hold *)
+    assert (OwnInv k (fd :: ow)) as H0 by (eapply OwnInv_weaken_ow; [|exact H]; intros x X; right; exact X).
+    assert (OwnInv (upd_tcb k fd t') (fd :: ow)) as H1.
+    { unfold upd_tcb. apply OwnInv_upd_gen; [| | | | | |exact H0].
+      - intros s0. repeat split.
+      - intros s0 Hin L0. rewrite (lookup_unique _ _ _ _ (o_idx _ _ H) L Hin) in L0. congruence.
+      - intros s0 _. cbn. discriminate.
+      - intros s0 X. exact X.
+      - intros s0 S. exfalso. rewrite is_synrcvd_set_tcb, ST' in S. discriminate.
+      - intros s0 _ _ _. right. left. reflexivity. }
+    assert (find_listener (upd_tcb k fd t') l = find_listener k l) as FLE.
+    { assert (forall x, (match lookup (upd_tcb k fd t') x with
+                 | Some s0 => match s_listen s0 with Some _ => true | None => false end | None => false end) =
+                (match lookup k x with Some s0 => match s_listen s0 with Some _ => true | None => false end | None => false end)) as IS.
+      { intros x. apply (is_listening_upd k fd (fun s0 => set_tcb s0 (Some t')) x). reflexivity. }
+      unfold find_listener. cbv zeta. change (binds (upd_tcb k fd t')) with (binds k).
+      rewrite !(find_ext' _ _ _ IS). reflexivity. }
+    destruct (OwnInv_push (upd_tcb k fd t') (fd :: ow) fd l) as [H2 INR]; [|exact H1|].
+    + intros s0 Hin. cbn [socks upd_tcb upd_sock set_socks] in Hin. apply in_upd_s' in Hin as (s1 & Hs1 & [[X _]|[_ ->]]); [congruence|].
+      unfold is_listener. cbn. rewrite (lookup_unique _ _ _ _ (o_idx _ _ H) L Hs1). exact NLso.
+    + apply (OwnInv_drop_ow _ _ fd); [apply INR; rewrite FLE; exact FL|exact H2].
+Qed.
+
+Lemma OwnInv_accept_syn k ow lfd l r s :
+  find_listener k l = Some lfd -> OwnInv k ow -> OwnInv (accept_syn k lfd l r s) ow.
+Proof.
+  intros FL H. unfold accept_syn. destruct (lookup k lfd) as [ls|] eqn:L; [|exact H].
+  destruct (s_listen ls) as [li|] eqn:LI; [|exact H]. destruct (_ <=? _); [exact H|].
+  destruct (lookup_some_in _ _ _ L) as [Hls _].
+  assert (s_stream ls = true) as ST.
+  { assert (is_listener ls = true) as X by (unfold is_listener; rewrite LI; reflexivity). apply (o_lis _ _ H _ _ Hls X). }
+  pose proof (find_listener_has _ _ _ FL) as HK. rewrite ST.
+  change (insert_sock k (new_socket (s_v6 ls) true)) with (fst (insert_sock k (new_socket (s_v6 ls) true)), next_id k).
+  cbv iota. set (K := fst (insert_sock k (new_socket (s_v6 ls) true))). set (c := next_id k).
+  set (key := mkbk true (fst l) (snd l)).
+  change (initial_sequence (insert_binding K key c)) with (fst (initial_sequence (insert_binding K key c)), isn (insert_binding K key c)).
+  cbv iota.
+  set (t := fresh_tcb SynReceived r (isn (insert_binding K key c)) (win s) (seqn s + 1)).
+  pose proof (OwnInv_new_child k ow (s_v6 ls) true key r t H HK eq_refl) as H1. cbn zeta in H1. fold K c in H1.
+  apply OwnInv_emit.
+  assert (OwnInv (upd_sock (fst (initial_sequence (insert_binding K key c))) c
+                   (fun c0 : socket => set_tcb (set_peer (set_bound c0 (Some key)) (Some r)) (Some t))) ow) as H2.
+  { eapply OwnInv_same; [| | | |exact H1]; reflexivity. }
+  apply OwnInv_insert_connection; [| | |exact H2].
+  - rewrite keys_upd_sock. change (In c (keys K)). unfold K, c. apply (IdxInv_insert_sock k _ (o_idx _ _ H)).
+  - intros s0 Hin. cbn [socks upd_sock set_socks initial_sequence fst insert_binding] in Hin.
+    apply in_upd_s' in Hin as (s1 & _ & [[X _]|[_ ->]]); [congruence|]. cbn. discriminate.
+  - intros s0 Hin _. cbn [socks upd_sock set_socks initial_sequence fst insert_binding] in Hin.
+    apply in_upd_s' in Hin as (s1 & _ & [[X _]|[_ ->]]); [congruence|]. unfold bound_endpoint. cbn. destruct l; reflexivity.
+Qed.
+
+Lemma OwnInv_k_deliver k ow p : OwnInv k ow -> OwnInv (k_deliver k p) ow.
+Proof.
+  intros H. unfold k_deliver. destruct (body p).
+  - unfold udp_deliver. destruct (match bind_get _ _ with [] => _ | _ => _ end); [|exact H].
+    apply OwnInv_upd_light; [|exact H]. intros s0. destruct (s_peer s0); [destruct (sa_eqb _ _)|]; reflexivity.
+  - unfold tcp_deliver. destruct (conn_get _ _) as [fd|] eqn:CG.
+    + apply OwnInv_handle_on_connection; [apply conn_get_in', CG|exact H].
+    + destruct (_ && _).
+      * destruct (find_listener _ _) eqn:FL; [eapply OwnInv_accept_syn; eassumption|apply OwnInv_emit, H].
+      * destruct (negb _); [apply OwnInv_emit, H|exact H].
+Qed.
+
+(* ---- egress ---- *)
+Lemma OwnInv_emit_handshake k ow fd : OwnInv k ow -> OwnInv (emit_handshake k fd) ow.
+Proof.
+  intros H. unfold emit_handshake. destruct (lookup k fd) as [s|]; [|exact H]. destruct (s_tcb s) as [t|]; [|exact H].
+  destruct (t_state t); try exact H; apply OwnInv_emit, H.
+Qed.
+
+Lemma OwnInv_check_retx k ow : OwnInv k ow -> OwnInv (check_retx k) ow.
+Proof.
+  intros H. unfold check_retx. pose proof (retx_pass_view k (o_idx _ _ H)) as V.
+  pose proof (IdxInv_check_retx k (o_idx _ _ H)) as _.
+  destruct (retx_pass_shape k) as [S1 S2].
+  destruct (retx_pass k) as [[ss rs] ab]. cbn [fst] in *.
+  assert (OwnInv (set_socks k ss) ow) as H1.
+  { eapply OwnInv_view; [split; [exact V|split; reflexivity]| |exact H].
+    destruct (o_idx _ _ H) as [B1 B2 B3 B4]. split; unfold keys, has_tcb in *; cbn; rewrite ?S1; try assumption.
+    intros ck fd Hin. destruct (B4 ck fd Hin) as [X Y]. split; [exact X|].
+    intros s Hs. destruct (S2 _ _ Hs) as (s0 & Hs0 & Keep). apply Keep, (Y _ Hs0). }
+  apply fold_left_inv; [apply fold_left_inv; [exact H1|]|].
+  - intros a b Ha. apply OwnInv_emit_handshake, Ha.
+  - intros a b Ha. apply OwnInv_abort, Ha.
+Qed.
+
+Lemma OwnInv_segment_one k ow fd : OwnInv k ow -> OwnInv (segment_one k fd) ow.
+Proof.
+  intros H. unfold segment_one. destruct (lookup k fd) as [s|] eqn:L; [|exact H]. destruct (s_tcb s) as [t|] eqn:T; [|exact H].
+  pose proof (syn_seg_loop (seg_fuel t) (mss_for k (fst (bound_endpoint s))) (recv_cap (cfg k)) (bound_endpoint s) t) as S.
+  destruct (seg_loop _ _ _ _ t) as [t' ps]. cbn [fst] in S. apply OwnInv_set_outb. eapply OwnInv_upd_tcb; eassumption.
+Qed.
+
+Lemma OwnInv_segment_all k ow : OwnInv k ow -> OwnInv (segment_all k) ow.
+Proof. intros H. unfold segment_all. apply fold_left_inv; [exact H|]. intros a b Ha. apply OwnInv_segment_one, Ha. Qed.
+
+Lemma OwnInv_egress_loop fuel k ow out : OwnInv k ow -> OwnInv (fst (egress_loop fuel k out)) ow.
+Proof.
+  revert k out. induction fuel as [|f IH]; intros k out H; cbn [egress_loop]; [exact H|].
+  pose proof (OwnInv_segment_all k ow H) as H1.
+  destruct (outb (segment_all k)) as [|p ps]; [exact H1|].
+  set (step := fun (a : kernel * list packet) p0 => _).
+  assert (forall l a, OwnInv (fst a) ow -> OwnInv (fst (fold_left step l a)) ow) as G.
+  { induction l as [|q l IHl]; intros a Ha; cbn [fold_left]; [exact Ha|]. apply IHl. subst step. cbn.
+    destruct a as [kk o]. cbn in *. destruct (is_local kk (pdst q)); cbn; [apply OwnInv_k_deliver, Ha|exact Ha]. }
+  specialize (G (p :: ps) (set_outb (segment_all k) [], out) (OwnInv_set_outb _ _ _ H1)).
+  destruct (fold_left step (p :: ps) (set_outb (segment_all k) [], out)) as [k2 out']. apply IH, G.
+Qed.
+
+Lemma OwnInv_fold_remove V k ow :
+  (forall c s, In c V -> In (c, s) (socks k) -> is_listener s = false) -> OwnInv k ow -> OwnInv (fold_left remove_sock V k) ow.
+Proof.
+  revert k. induction V as [|c V IH]; intros k NL H; cbn [fold_left]; [exact H|].
+  apply IH.
+  - intros c0 s Hc Hin. apply in_socks_remove in Hin as [Hin _]. apply (NL c0 s (or_intror Hc) Hin).
+  - apply OwnInv_remove_nonlistener; [intros s Hin; apply (NL c s (or_introl eq_refl) Hin)|exact H].
+Qed.
+
+Lemma OwnInv_reap_closed k ow : OwnInv k ow -> OwnInv (reap_closed k) ow.
+Proof.
+  intros H. unfold reap_closed. apply OwnInv_fold_remove; [|exact H].
+  intros c s Hc Hin. apply in_map_iff in Hc as ([f x] & E & Hf). cbn in E. subst f.
+  apply filter_In in Hf as [Hf R]. cbn in R. rewrite (in_socks_unique _ _ _ _ (ix_nodup _ (o_idx _ _ H)) Hin Hf).
+  destruct (is_listener x) eqn:Lx; [|reflexivity]. destruct (o_lis _ _ H _ _ Hf Lx) as (_ & _ & _ & FC & _).
+  unfold reapable in R. rewrite FC in R. discriminate.
+Qed.
+
+Lemma OwnInv_k_egress k ow : OwnInv k ow -> OwnInv (fst (k_egress k)) ow.
+Proof.
+  intros H. unfold k_egress. pose proof (OwnInv_egress_loop egress_fuel (check_retx k) ow [] (OwnInv_check_retx k ow H)) as H1.
+  destruct (egress_loop egress_fuel (check_retx k) []) as [k1 out]. cbn [fst] in *. apply OwnInv_reap_closed, H1.
+Qed.
+
+Lemma OwnInv_k_udp_send_to k ow fd pl dst :
+  (forall s, lookup k fd = Some s -> s_stream s = false /\ s_tcb s = None) -> OwnInv k ow -> OwnInv (fst (k_udp_send_to k fd pl dst)) ow.
+Proof.
+  intros DG H. unfold k_udp_send_to. destruct (lookup k fd) as [s|] eqn:L; [|exact H].
+  destruct (lookup_some_in _ _ _ L) as [Hs Hfd]. destruct (DG s eq_refl) as [DS DT].
+  destruct (negb _); [exact H|]. destruct (_ <? _); [exact H|].
+  assert (forall s0, In (fd, s0) (socks k) -> is_listener s0 = false /\ is_synrcvd s0 = false) as NL.
+  { intros s0 Hin. rewrite (lookup_unique _ _ _ _ (o_idx _ _ H) L Hin). split.
+    - destruct (is_listener s) eqn:X; [|reflexivity]. destruct (o_lis _ _ H _ _ Hs X) as (_ & _ & ST & _). congruence.
+    - unfold is_synrcvd. rewrite DT. reflexivity. }
+  assert (OwnInv (fst (match s_bound s with Some b => (k, Ready b) | None => auto_bind k fd false (fst dst) end)) ow) as H1.
+  { destruct (s_bound s); [exact H|apply OwnInv_auto_bind; assumption]. }
+  destruct (match s_bound s with Some b => _ | None => _ end) as [k1 r]; cbn [fst] in *.
+  destruct r as [|b|e]; try exact H1. apply OwnInv_emit, H1.
+Qed.
+
+(* ------------------------------------------------------------------ *)
+(* The host with its application                                       *)
+
+Lemma OwnInv_init c a : OwnInv (new_kernel c a) [].
+Proof. split; [apply IdxInv_new| | | | |]; intros; cbn in *; contradiction. Qed.
+
+Lemma lookup_insert_fresh k s : IdxInv k -> lookup (fst (insert_sock k s)) (next_id k) = Some s.
+Proof.
+  intros IX. unfold lookup. cbn. apply lookup_s_app_fresh. intros X. pose proof (ix_fresh _ IX _ X). lia.
+Qed.
+
+Lemma OA_ostep o e :
+  OwnInv (okk o) (owned o) /\ AccInv (okk o) (acc_log o) ->
+  OwnInv (okk (ostep o e)) (owned (ostep o e)) /\ AccInv (okk (ostep o e)) (acc_log (ostep o e)).
+Proof.
+  intros [H A]. split; [|apply AccInv_ostep, A].
+  destruct o as [k ow acc]. cbn [okk owned acc_log] in *. destruct e; cbn [ostep okk owned acc_log].
+  - (* OListen *)
+    pose proof (OwnInv_k_bind k ow a true H) as H1.
+    destruct (k_bind k a true) as [k1 [|fd|er]]; cbn [okk owned] in *; try exact H1.
+    destruct H1 as (H1 & FD & RD & SF). apply OwnInv_listen; [apply in_or_app; right; left; reflexivity| |exact SF|exact H1].
+    rewrite RD. intros X. destruct (ac_old _ _ A fd (in_or_app _ _ _ (or_introl X))) as [LT _]. lia.
+  - (* OConnect *)
+    pose proof (OwnInv_insert_owned k ow v true H) as H1.
+    change (insert_sock k (new_socket v true)) with (fst (insert_sock k (new_socket v true)), next_id k). cbv iota.
+    set (K := fst (insert_sock k (new_socket v true))) in *. set (fd := next_id k) in *.
+    assert (OwnInv (fst (k_poll_connect K fd peer)) (ow ++ [fd])) as H2.
+    { apply OwnInv_k_poll_connect; [|exact H1]. intros s L. unfold K, fd in L. rewrite (lookup_insert_fresh k _ (o_idx _ _ H)) in L.
+      inversion L; subst. reflexivity. }
+    destruct (k_poll_connect K fd peer) as [k2 [|u|er]]; cbn [fst okk owned] in *; try exact H2.
+    eapply OwnInv_weaken_ow; [apply weaken_disown_fresh|apply OwnInv_k_close, H2].
+  - (* OPollConnect *)
+    destruct (own _ fd && has_tcb_b k fd) eqn:G; [|exact H]. apply andb_prop in G as [_ G].
+    assert (OwnInv (fst (k_poll_connect k fd peer)) ow) as H2.
+    { apply OwnInv_k_poll_connect; [|exact H]. intros s L. unfold has_tcb_b in G. rewrite L in G.
+      destruct (is_listener s) eqn:X; [|reflexivity]. destruct (lookup_some_in _ _ _ L) as [Hs _].
+      destruct (o_lis _ _ H _ _ Hs X) as (_ & T & _). rewrite T in G. discriminate. }
+    destruct (k_poll_connect k fd peer) as [k2 [|u|er]]; cbn [fst okk owned] in *; try exact H2. apply OwnInv_k_close, H2.
+  - (* OAccept *)
+    destruct (_ && _); [|exact H]. pose proof (OwnInv_k_poll_accept k ow fd H) as H1.
+    destruct (k_poll_accept k fd) as [k1 [|[c p]|er]]; cbn [fst snd okk owned] in *; try exact H1. exact H.
+  - destruct (own _ fd); [|exact H]. apply OwnInv_k_poll_send, H.
+  - destruct (own _ fd); [|exact H]. apply OwnInv_k_poll_recv, H.
+  - destruct (own _ fd); [|exact H]. apply OwnInv_k_poll_shutdown, H.
+  - destruct (own _ fd); [|exact H]. apply OwnInv_k_close, H.
+  - (* OUdpBind *)
+    pose proof (OwnInv_k_bind k ow a false H) as H1.
+    destruct (k_bind k a false) as [k1 [|fd|er]]; cbn [okk owned] in *; try exact H1. apply H1.
+  - (* OUdpSend *)
+    destruct (own _ fd && is_dgram k fd && negb (has_tcb_b k fd)) eqn:G; [|exact H].
+    apply andb_prop in G as [G G3]. apply andb_prop in G as [_ G2]. apply OwnInv_k_udp_send_to; [|exact H].
+    intros s L. unfold is_dgram, has_tcb_b in *. rewrite L in *. split; [apply Bool.negb_true_iff, G2|].
+    destruct (s_tcb s); [discriminate|reflexivity].
+  - apply OwnInv_k_deliver, H.
+  - apply OwnInv_k_egress, H.
+Qed.
+
+Lemma OA_orun es o :
+  OwnInv (okk o) (owned o) /\ AccInv (okk o) (acc_log o) ->
+  OwnInv (okk (orun o es)) (owned (orun o es)) /\ AccInv (okk (orun o es)) (acc_log (orun o es)).
+Proof.
+  unfold orun. revert o. induction es as [|e es IH]; intros o H; cbn [fold_left]; [exact H|]. apply IH, OA_ostep, H.
+Qed.
+
+(* Every socket-table entry is accounted for. *)
+Lemma owned_lemma c a es :
+  let o := orun (oinit c a) es in
+  forall fd s, In (fd, s) (socks (okk o)) ->
+    In fd (owned o) \/ In fd (ready_of (okk o)) \/ fd_closed s = true \/
+    (is_synrcvd s = true /\ fd_closed s = false /\ exists bs, s_bound s = Some bs /\ has_listener (okk o) bs).
+Proof.
+  intros o fd s Hin. destruct (OA_orun es (oinit c a) (conj (OwnInv_init c a) (AccInv_init c a))) as [H _]. fold o in H.
+  destruct (o_part _ _ H _ _ Hin) as [A|[A|[A|A]]]; auto.
+  right. right. right. destruct (o_syn _ _ H _ _ Hin A) as (_ & B & C). auto.
+Qed.
+
+(* listeners are always held by the application, and what is queued for accept is no listener *)
+Lemma listeners_held_lemma c a es :
+  let o := orun (oinit c a) es in
+  (forall fd s, In (fd, s) (socks (okk o)) -> is_listener s = true -> In fd (owned o) /\ s_tcb s = None /\ fd_closed s = false) /\
+  (forall x s, In x (ready_of (okk o)) -> In (x, s) (socks (okk o)) -> is_listener s = false).
+Proof.
+  intros o. destruct (OA_orun es (oinit c a) (conj (OwnInv_init c a) (AccInv_init c a))) as [H _]. fold o in H. split.
+  - intros fd s Hin L. destruct (o_lis _ _ H _ _ Hin L) as (A & B & _ & D & _). auto.
+  - intros x s Hx Hin. apply (o_rdy _ _ H _ _ Hx Hin).
 Qed.
